@@ -4,6 +4,7 @@ import CpModel.Validators
 import CpModel.CondFlow
 import CpModel.CondElements
 import CpModel.HttpDate
+import CpProofs.C16MultipartScan
 /-!
   Driver for C16.  One case per line.
 
@@ -16,9 +17,13 @@ import CpModel.HttpDate
     F <hdr>                             elementsFull(hdr) = [str(x) for x in header_elements('If-Match', hdr)],
                                         in the order of the real list  -> texts joined by '/'   ([] when empty)
 
+    M <boundary> <ctype> <hex>          the reference receiver of CpProofs.C16MultipartScan (cut at CRLF "--" boundary, read
+                                        each piece's headers, payload = rest of the piece) run on a REAL response body
+        -> p:a-b/t:<len>:<adler32>;…  |  undecodable
+
     D <t>                               httpDate(t) = httputil.HTTPDate(t), integer seconds  -> text
 
-    Q kind method proto known base callSince etagsOn autotags hEtag autoTag lastmod im inm ims ius range content boundary ctype stream script emptyTag
+    Q kind method proto known base callSince etagsOn autotags hEtag autoTag lastmod im inm ims ius range content boundary ctype stream script emptyTag ifRange
         (answered by `CondFlow.respondX`; `callSince` only feeds the legacy field of `Req`)
         stream = 0|1 (response.stream)   script = - | letters B (set body) S (validate_since) E (validate_etags())
         A (validate_etags(autotags=True)): what a `gen` handler does, in order   emptyTag = text ('"md5(b'')"')
@@ -96,7 +101,8 @@ def script? (s : String) : Option (List Step) :=
 
 def parseQ : List String → Option (ReqX × Option Text × Text)
   | [kind, method, proto, known, base, callSince, etagsOn, autotags, hEtag, autoTag, lastmod, im, inm,
-     ims, ius, range, content, boundary, ctype, stream, script, emptyTag] => do
+     ims, ius, range, content, boundary, ctype, stream, script, emptyTag, ifRange] => do
+    let ifRange ← optText? ifRange
     let stream ← flag? stream
     let script ← script? script
     let emptyTag ← Proto.untext? emptyTag
@@ -123,7 +129,7 @@ def parseQ : List String → Option (ReqX × Option Text × Text)
       ims := ← optText? ims
       ius := ← optText? ius
       range := ← optText? range
-      content := ← content? content }, stream, script, emptyTag⟩, boundary, ctype)
+      content := ← content? content }, stream, script, emptyTag, ifRange⟩, boundary, ctype)
   | _ => none
 
 def step (line : String) : String :=
@@ -140,6 +146,13 @@ def step (line : String) : String :=
     match optText? hdr with
     | some h => showTextList (elementsFull h)
     | none => "bad-op"
+  | ["M", boundary, ctype, body] =>
+    match Proto.untext? boundary, Proto.untext? ctype, Proto.unhex? body with
+    | some b, some c, some bytes =>
+      match (CpProofs.C16.scanMultipart (ascii b) bytes).bind fun ps => ps.mapM (CpProofs.C16.parsePiece (ascii c)) with
+      | some ps => showBody (.parts ps)
+      | none => "undecodable"
+    | _, _, _ => "bad-op"
   | ["D", t] =>
     match t.toNat? with
     | some n => Proto.text (HttpDate.httpDate n)
